@@ -641,6 +641,14 @@ func (cp *childProc) send(v interface{}) error {
 	return err
 }
 
+// send2 writes one raw command line to the child.
+func (cp *childProc) send2(cmd string) error {
+	cp.mu.Lock()
+	defer cp.mu.Unlock()
+	_, err := cp.stdin.Write([]byte(cmd + "\n"))
+	return err
+}
+
 // recv reads one line from the child with a watchdog time-out; ok=false on EOF/time-out.
 func (cp *childProc) recv(timeout time.Duration, v interface{}) (string, bool) {
 	type res struct {
